@@ -1,6 +1,72 @@
 package turtle
 
-import "github.com/dpb587/rdfkit-go/encoding/turtle/internal"
+import (
+	"github.com/dpb587/rdfkit-go/encoding/turtle/internal"
+	"github.com/dpb587/rdfkit-go/ontology/xsd/xsdiri"
+	"github.com/dpb587/rdfkit-go/rdf"
+)
+
+// bareLiteralDatatype returns the datatype a Turtle reader assigns to s when it is written as a bare
+// token: xsd:boolean for the keywords, xsd:integer, xsd:decimal or xsd:double for a token matching
+// INTEGER, DECIMAL or DOUBLE. A literal can only be written in that shorthand when this is its
+// datatype; for anything else the shorthand would read back as a different literal, or not at all.
+//
+//	INTEGER  ::= [+-]? [0-9]+
+//	DECIMAL  ::= [+-]? [0-9]* '.' [0-9]+
+//	DOUBLE   ::= [+-]? ([0-9]+ '.' [0-9]* EXPONENT | '.' [0-9]+ EXPONENT | [0-9]+ EXPONENT)
+//	EXPONENT ::= [eE] [+-]? [0-9]+
+func bareLiteralDatatype(s string) (rdf.IRI, bool) {
+	if s == "true" || s == "false" {
+		return xsdiri.Boolean_Datatype, true
+	}
+
+	digits := func(i int) int {
+		for i < len(s) && '0' <= s[i] && s[i] <= '9' {
+			i++
+		}
+
+		return i
+	}
+
+	sign := func(i int) int {
+		if i < len(s) && (s[i] == '+' || s[i] == '-') {
+			i++
+		}
+
+		return i
+	}
+
+	intFrom := sign(0)
+	intUntil := digits(intFrom)
+
+	fracFrom, fracUntil, hasDot := intUntil, intUntil, false
+	if intUntil < len(s) && s[intUntil] == '.' {
+		hasDot = true
+		fracFrom = intUntil + 1
+		fracUntil = digits(fracFrom)
+	}
+
+	if fracUntil == len(s) {
+		if !hasDot && intUntil > intFrom {
+			return xsdiri.Integer_Datatype, true
+		} else if hasDot && fracUntil > fracFrom {
+			return xsdiri.Decimal_Datatype, true
+		}
+
+		return "", false
+	} else if s[fracUntil] != 'e' && s[fracUntil] != 'E' {
+		return "", false
+	}
+
+	expFrom := sign(fracUntil + 1)
+	expUntil := digits(expFrom)
+
+	if expUntil == len(s) && expUntil > expFrom && (intUntil > intFrom || fracUntil > fracFrom) {
+		return xsdiri.Double_Datatype, true
+	}
+
+	return "", false
+}
 
 func formatLiteralLexicalForm(lexicalForm string, ascii bool) string {
 	var echar, uchar4, uchar8 int
